@@ -12,6 +12,54 @@ def run(ctx):
     if err:
         return err
     violations, cov = [], {"samples": []}
+    # ---- a FROZEN process (runs in the background of this check): the same `go depth 8` in two processes, one of them stopped with
+    # SIGSTOP for more than a minute (three minutes in thorough) right after its first info line: wall-clock time passes, nothing else
+    # changes, so every info line (depth, nodes, score, pv) and the bestmove must be identical.  (Seeded changes r2C16, r9C16: behaviour
+    # keyed on elapsed wall time — a default move time, a cache trim after 120 s — read from clocks no hook intercepts.)
+    import signal
+    import threading
+    import time as _time
+    import uciproc
+    import ucigrammar as UG
+    frozen = {}
+
+    def freeze_leg():
+        T = 65 if ctx["tier"] == "quick" else 185
+        engs = [uciproc.Engine(), uciproc.Engine()]
+        try:
+            for e in engs:
+                e.send("position startpos")
+                e.send("go depth 8")
+            if engs[1].wait_for(lambda l: l.startswith("info depth 1 "), 20) is not None:
+                C.os.kill(engs[1].p.pid, signal.SIGSTOP)
+                _time.sleep(T)
+                C.os.kill(engs[1].p.pid, signal.SIGCONT)
+                frozen["frozen_s"] = T
+            sigs = []
+            for e in engs:
+                i = e.wait_for(lambda l: l.startswith("bestmove"), 300)
+                out = e.lines()[: (i + 1) if i is not None else None]
+                sig = []
+                for l in out:
+                    d = UG.parse_info(l) if l.startswith("info") else None
+                    if d and "depth" in d:
+                        sig.append((d.get("depth"), d.get("nodes"), d.get("score_kind"), d.get("score"), tuple(d.get("pv", []))))
+                    elif l.startswith("bestmove"):
+                        sig.append(l)
+                sigs.append(sig)
+            frozen["sigs"] = sigs
+        except Exception as ex:          # noqa: BLE001
+            frozen["error"] = repr(ex)
+        finally:
+            for e in engs:
+                try:
+                    C.os.kill(e.p.pid, signal.SIGCONT)
+                except Exception:        # noqa: BLE001
+                    pass
+                e.finish()
+                e.kill()
+    freeze_thread = threading.Thread(target=freeze_leg, daemon=True)
+    freeze_thread.start()
 
     def relevant(case, dv):
         if case["group"] == "cut":
@@ -145,6 +193,20 @@ def run(ctx):
             rp = C.write_replay(prop, {"kind": "bench node total differs between runs (or bench printed no node total)", "totals": totals,
                                        "replay_cmd": "%s bench | grep nodes; %s bench | grep nodes" % (C.ENGINE, C.ENGINE)})
             violations.append({"replay": rp})
+    freeze_thread.join(timeout=600)
+    if frozen.get("sigs") and len(frozen["sigs"]) == 2 and frozen["sigs"][0] and frozen["sigs"][1]:
+        a_, b_ = frozen["sigs"]
+        cov["frozen_process_run"] = {"frozen_s": frozen.get("frozen_s"), "info_lines": len(a_) - 1, "last": a_[-2:] and [str(x)[:80] for x in a_[-2:]]}
+        if a_ != b_:
+            k_ = next((i for i in range(min(len(a_), len(b_))) if a_[i] != b_[i]), min(len(a_), len(b_)))
+            rp = C.write_replay(prop, {"kind": "`go depth 8` from the start position gives different results in a process that was frozen (SIGSTOP) for %s s in mid-search: the "
+                                               "result depends on elapsed wall time" % frozen.get("frozen_s"),
+                                       "undisturbed": [str(x)[:160] for x in a_[max(0, k_ - 1):k_ + 2]], "frozen": [str(x)[:160] for x in b_[max(0, k_ - 1):k_ + 2]],
+                                       "replay_cmd": "(printf 'position startpos\\ngo depth 8\\n'; sleep 200) | %s & sleep 0.3; kill -STOP $!; sleep %s; kill -CONT $!   # compare the nodes of each depth with an undisturbed run" % (C.ENGINE, frozen.get("frozen_s"))})
+            violations.append({"replay": rp})
+    else:
+        rp = C.write_replay(prop, {"broken": "frozen-process leg did not complete", "detail": str(frozen)[:500]})
+        violations.append({"replay": rp, "no_input": True})
     cov["rule"] = ("fixed depth 1..3(4) from a fresh cache and sequences of searches sharing the cache: EXACT equality of "
                    "best move, score, node count, seldepth, info lines and the complete cache-write trace with the Coq model; "
                    "the same with NO time limit while the clock is made to jump by 10^10 ms in mid-search (guarded clock-skew hook): nothing may change; "
